@@ -393,6 +393,8 @@ func (x *Exec) applyContract(st *State, fr *frame, con *Contract, name string, s
 	for _, cp := range con.Captures {
 		if cp.Kind == "scalar" {
 			env.vars[cp.Name] = Sc{s.declare(s.fresh("callee.capture:"+cp.Name), "Int"), "Int"}
+		} else if cp.Kind == "err" {
+			env.vars[cp.Name] = s.symVal(s.fresh("callee.capture:"+cp.Name), errorType)
 		} else {
 			env.vars[cp.Name] = s.symVal(s.fresh("callee.capture:"+cp.Name), types.NewSlice(types.Typ[types.Uint8]))
 		}
